@@ -52,6 +52,8 @@ def run(tier, v):
     vlib.require_no_zero_actions(rA)
     # ---- hellos from C04's generator
     hellos = []
+    big = []
+    vlib.tlc("MC_C04", pid=PID, workers=8, tag_sink=lambda tag, o: big.append(bytes(o["bytes"])), env={"VERIF_FAM": "big"}, timeout=1800, coverage=False)
     for fam in ("presence", "misc", "sizes") if tier == "thorough" else ("presence", "misc"):
         def sink(tag, o):
             hellos.append(bytes(o["bytes"]))
@@ -64,6 +66,11 @@ def run(tier, v):
     if len(set(embed)) < 6:
         raise vlib.ToolError("MC_C04 embed family incomplete")
     hellos += sorted(set(embed))          # opaque fields that look like records: always all of them
+    big = sorted(set(big), key=len)
+    if tier != "thorough":
+        big = big[::2]
+    nbig0 = len(hellos)
+    hellos += big                          # records far above an Ethernet MTU (cut positions sampled, see below)
     recver = []
     vlib.tlc("MC_C04", pid=PID, workers=8, tag_sink=lambda tag, o: recver.append(bytes(o["bytes"])), env={"VERIF_FAM": "recver"}, timeout=1800, coverage=False)
     hellos += sorted(set(recver))[:: (1 if tier == "thorough" else 3)]       # every record-layer version 3.0 .. 3.4
@@ -86,8 +93,15 @@ def run(tier, v):
         n = len(h)
         for reader in (False, True):
             fm = 1 if reader else 5
-            for c in range(fm, n):
+            cuts = range(fm, n)
+            if n > 1000:
+                # big records: the cut positions around the usual segment sizes, both ends, and a seeded sample
+                cuts = sorted({c for c in [fm, fm + 1, 536, 1199, 1200, 1379, 1380, 1399, 1400, 1439, 1440, 1441, 1447, 1448, 1459, 1460, 1461, 1499, 1500, 1501, 1513, 1514, 1515, 8191, 8192, 16383, 16384, n - 2, n - 1]
+                               + [rng.randrange(fm, n) for _ in range(12)] if fm <= c < n})
+            for c in cuts:
                 add(hi, [h], ["hello"], b"", [c, n - c], reader)
+            if n > 1000:
+                add(hi, [h], ["hello"], b"", [n], reader)          # the whole record in one segment
             for segs in partitions(rng, n, fm, 40 if tier == "thorough" else 8):
                 add(hi, [h], ["hello"], b"", segs, reader)
             tail = bytes([0x17, 3, 3, 0, 50]) + bytes(rng.randrange(256) for _ in range(20))
